@@ -27,6 +27,9 @@ def example(draw, tier):
     for _ in range(gen.BATCH):
         sched = gen.schedule_lines(draw, tier, len(nops), nops, sig_threads=list(range(1, n + 1)), sig_max=3,
                                    faults=("futex_eintr",), fault_max=2)
+        # bp: a thread's exit path (thread-specific-data destructor: unregistration) is also "any instruction of that thread": aim a signal into it
+        if flavor == "bp" and draw(st.integers(0, 2)) == 0:
+            sched = sched + ["sigx %d %d" % (draw(st.integers(1, n)), draw(st.integers(1, 45)))]
         out.append("\n".join(head + prog + sched) + "\n")
     return out
 
